@@ -957,7 +957,7 @@ func (p *Program) inlineAt(cs *CallSite, cand *inlineCand, tag string, read func
 	contAssign := false
 	var contThen *ast.BlockStmt
 	if ifs, ok := stmt.(*ast.IfStmt); ok && !noCont && ifs.Else == nil && (role == "ifinit" || role == "ifcond") && sig.Results().Len() == 1 && len(ifs.Body.List) > 0 {
-		if endsWithJump(ifs.Body) {
+		if endsWithJump(ifs.Body) && !bindsOutside(ifs.Body) {
 			if role == "ifinit" {
 				as := ifs.Init.(*ast.AssignStmt)
 				if len(as.Lhs) == 1 {
@@ -1008,7 +1008,7 @@ func (p *Program) inlineAt(cs *CallSite, cand *inlineCand, tag string, read func
 			if !isIf || ifs.Init != nil || ifs.Else != nil || len(ifs.Body.List) == 0 {
 				continue
 			}
-			if !endsWithJump(ifs.Body) {
+			if !endsWithJump(ifs.Body) || bindsOutside(ifs.Body) {
 				continue
 			}
 			cond := unparen(ifs.Cond)
@@ -1989,4 +1989,43 @@ func (p *Program) hoistTarget(file *ast.File, st ast.Stmt, cs *CallSite) (ast.St
 		return nil, false
 	}
 	return st, true
+}
+
+// bindsOutside: the block contains an unlabelled break or continue that
+// refers to a statement enclosing the block.  Such a block cannot be copied
+// into the `for { ... }` wrapper of an inlined body: the jump would bind to
+// the wrapper.
+func bindsOutside(b *ast.BlockStmt) bool {
+	found := false
+	var walk func(n ast.Node, inLoop, inBreakable bool)
+	walk = func(n ast.Node, inLoop, inBreakable bool) {
+		ast.Inspect(n, func(m ast.Node) bool {
+			if m == nil || m == n {
+				return true
+			}
+			switch x := m.(type) {
+			case *ast.FuncLit:
+				return false
+			case *ast.ForStmt, *ast.RangeStmt:
+				walk(x, true, true)
+				return false
+			case *ast.SwitchStmt, *ast.TypeSwitchStmt, *ast.SelectStmt:
+				walk(x, inLoop, true)
+				return false
+			case *ast.BranchStmt:
+				if x.Label != nil {
+					return true
+				}
+				if x.Tok == token.BREAK && !inBreakable {
+					found = true
+				}
+				if x.Tok == token.CONTINUE && !inLoop {
+					found = true
+				}
+			}
+			return true
+		})
+	}
+	walk(b, false, false)
+	return found
 }
